@@ -34,7 +34,7 @@ def tree_paths(root):
 class DataGen:
     """Generates one op at a time from the live reference tree `root` (plain h5py)."""
 
-    W = {"set": 20, "cds": 4, "grp": 8, "rgrp": 6, "del": 14, "sattr": 12, "dattr": 6,
+    W = {"set": 20, "cds": 4, "cip": 2, "grp": 8, "rgrp": 6, "del": 14, "sattr": 12, "dattr": 6,
          "copy": 8, "move": 6, "commit": 14, "reopen": 2}
 
     def __init__(self, rng, keys=None, weights=None, allow_self_copy=True, boundaries=True):
@@ -93,12 +93,16 @@ class DataGen:
             # mostly top-level names (a merge walks the top level itself, everything below through the generic copy)
             p = "/" + rng.choice(self.keys) + str(self.i % 7) if rng.random() < 0.5 else self.any_path(nodes, groups, 0.2)
             op = ["cds", p, tok, kw]
+        elif k == "cip":
+            # IH5's copy_into_patch on a dataset (a no-op for the tree; nothing happens on the plain reference)
+            ds = [n for n in nodes if n not in groups]
+            op = ["cip", rng.choice(ds) if ds and rng.random() < 0.9 else self.any_path(nodes, groups, 0.5)]
         elif k == "grp":
             op = ["grp", self.any_path(nodes, groups, 0.25)]
         elif k == "rgrp":
             op = ["rgrp", self.any_path(nodes, groups, 0.5)]
         elif k == "del":
-            op = ["del", self.any_path(nodes, groups, 0.9)]
+            op = ["del", self.any_path(nodes, groups, 0.9) if rng.random() > 0.03 else "/"]
         elif k == "sattr":
             p = "/" if rng.random() < 0.15 else self.any_path(nodes, groups, 0.92)
             op = ["sattr", p, rng.choice(self.keys), token(rng, self.i)]
@@ -115,6 +119,8 @@ class DataGen:
         else:  # copy / move
             src = self.any_path(nodes, groups, 0.9)
             dst = self.any_path(nodes, groups, 0.2)
+            if rng.random() < 0.04:
+                src = "/"  # the root group as source (plain HDF5: copy works, move is refused)
             if k == "copy" and self.allow_self_copy and groups[1:] and rng.random() < 0.12:
                 src = rng.choice(groups[1:])
                 dst = src + "/" + rng.choice(self.keys)
@@ -124,6 +130,11 @@ class DataGen:
                 if k == "move" or not self.allow_self_copy:
                     return self.next(root)  # excluded by the property
             op = [k, src, dst]
+        # a trailing slash does not change which node is meant
+        if rng.random() < 0.05 and op[0] in ("set", "grp", "rgrp", "del", "sattr", "dattr", "copy", "move") and op[1] not in ("/", ""):
+            j = 2 if op[0] in ("copy", "move") and rng.random() < 0.5 else 1
+            if op[j] != "/":
+                op = op[:j] + [op[j] + "/"] + op[j + 1:]
         # sometimes issue the operation through a sub-group handle: with a relative path where the target lies below the
         # group, and with ABSOLUTE paths from any group (h5py resolves those from the root, whatever the handle)
         r = rng.random()
